@@ -6,6 +6,9 @@ package main
 import (
 	"bytes"
 	"fmt"
+	"reflect"
+	"unsafe"
+	nethtml "golang.org/x/net/html"
 	"go/types"
 	"github.com/yuin/goldmark"
 	"github.com/yuin/goldmark/extension"
@@ -115,6 +118,7 @@ var fixedNow = time.Date(2026, 1, 1, 0, 0, 0, 0, time.UTC)
 
 func registerEnvIntrinsics() {
 	registerGoldmark()
+	registerHTML()
 	intrinsics["time.Now"] = func(in *Interp, fr *frame, fn *ssa.Function, a []Value) (Value, bool) {
 		return in.callNative(fr, func() time.Time { return fixedNow }, fn.Signature, a)
 	}
@@ -172,4 +176,32 @@ func (in *Interp) invokeNative(fr *frame, recv Native, method string, args []Val
 	}
 	in.unsupported(fmt.Sprintf("method %s on native %T", method, recv.X))
 	return nil
+}
+
+// ---- x/net/html (native on concrete input)
+
+func registerHTML() {
+	intrinsics["golang.org/x/net/html.ParseFragment"] = func(in *Interp, fr *frame, fn *ssa.Function, a []Value) (Value, bool) {
+		rd := in.resolveIface(fr, a[0])
+		p, ok := rd.V.(Ptr)
+		if !ok || p == nil || !strings.HasSuffix(rd.T.String(), "strings.Reader") {
+			in.unsupported("html.ParseFragment from a reader other than *strings.Reader")
+		}
+		src := (*p).(Struct)[0].(Str)
+		if !src.IsConcrete() {
+			in.unsupported("html.ParseFragment of text with symbolic bytes (the parser runs natively on concrete text; symbolic text uses harness-built trees)")
+		}
+		uc := &unmarshalCtx{in: in, memo: map[Ptr]reflect.Value{}}
+		ctxNode, ok := uc.toNative(a[1], reflect.TypeOf((*nethtml.Node)(nil)))
+		if !ok {
+			in.unsupported("html.ParseFragment context node not concrete")
+		}
+		nodes, err := nethtml.ParseFragment(strings.NewReader(src.S), ctxNode.Interface().(*nethtml.Node))
+		if err != nil {
+			in.unsupported("html.ParseFragment returned an error: " + err.Error())
+		}
+		mc := &marshalCtx{in: in, memo: map[unsafe.Pointer]Ptr{}}
+		res := fn.Signature.Results()
+		return Tuple{mc.fromNative(reflect.ValueOf(nodes), res.At(0).Type()), Iface{}}, true
+	}
 }
